@@ -1,11 +1,19 @@
 // C07: read/write lock.
 #include "fb_common.h"
 #include "fiber_rwlock.h"
+// under TSan the harness-side occupancy counters must not themselves create happens-before edges between owners
+#ifdef VP_TSAN
+#define OCC_ORDER memory_order_relaxed
+#else
+#define OCC_ORDER memory_order_seq_cst
+#endif
+static long plain_shared;  // written by writers, read by readers
+__attribute__((noinline)) static void vp_payload_rw_write(void) { plain_shared++; }
+__attribute__((noinline)) static long vp_payload_rw_read(void) { return plain_shared; }
 
 static fiber_rwlock_t rw;
 static _Atomic int readers_in, writers_in;
 static int iters, trial, writer_pct;
-static long plain_shared;  // written by writers, read by readers
 static vp_counter_t *c_rd, *c_wr, *c_tryrd_ok, *c_tryrd_fail, *c_trywr_ok, *c_trywr_fail, *c_trials, *c_maxreaders, *c_shared_reads;
 
 static void* rw_fiber(void* a) {
@@ -28,33 +36,33 @@ static void* rw_fiber(void* a) {
       else FB_BLOCKING(s, "C07 fiber_rwlock_rdlock", fiber_rwlock_rdlock(&rw));
     }
     if (is_writer) {
-      const int w = atomic_fetch_add(&writers_in, 1);
-      const int r = atomic_load(&readers_in);
+      const int w = atomic_fetch_add_explicit(&writers_in, 1, OCC_ORDER);
+      const int r = atomic_load_explicit(&readers_in, OCC_ORDER);
       if (w != 0 || r != 0)
         vp_violation("C07", "rwlock:writer-not-alone", "trial %d: writer fiber %d holds the lock (%s) together with %d writer(s) and %d reader(s)", trial,
                      s->id, got ? "trywrlock" : "wrlock", w, r);
-      plain_shared++;
+      vp_payload_rw_write();
       if ((vp_rand(&s->rng) & 7) == 0) fiber_yield();
       else fb_spin(&s->rng, 50);
-      if (atomic_load(&readers_in) != 0)
-        vp_violation("C07", "rwlock:reader-joined-writer", "trial %d: %d reader(s) entered while writer fiber %d holds the lock", trial, atomic_load(&readers_in), s->id);
-      atomic_fetch_sub(&writers_in, 1);
+      if (atomic_load_explicit(&readers_in, OCC_ORDER) != 0)
+        vp_violation("C07", "rwlock:reader-joined-writer", "trial %d: %d reader(s) entered while writer fiber %d holds the lock", trial, atomic_load_explicit(&readers_in, OCC_ORDER), s->id);
+      atomic_fetch_sub_explicit(&writers_in, 1, OCC_ORDER);
       vp_add(c_wr, 1);
       FB_BLOCKING(s, "C07 fiber_rwlock_wrunlock", fiber_rwlock_wrunlock(&rw));
     } else {
-      const int r = atomic_fetch_add(&readers_in, 1) + 1;
+      const int r = atomic_fetch_add_explicit(&readers_in, 1, OCC_ORDER) + 1;
       vp_max(c_maxreaders, r);
       if (r > 1) vp_add(c_shared_reads, 1);
-      const int w = atomic_load(&writers_in);
+      const int w = atomic_load_explicit(&writers_in, OCC_ORDER);
       if (w != 0)
         vp_violation("C07", "rwlock:reader-with-writer", "trial %d: reader fiber %d holds the lock (%s) while %d writer(s) are inside", trial, s->id,
                      got ? "tryrdlock" : "rdlock", w);
-      const long seen = plain_shared;
+      const long seen = vp_payload_rw_read();
       if ((vp_rand(&s->rng) & 7) == 0) fiber_yield();
       else fb_spin(&s->rng, 50);
-      if (plain_shared != seen)
+      if (vp_payload_rw_read() != seen)
         vp_violation("C07", "rwlock:write-during-read", "trial %d: shared data changed while reader fiber %d holds the lock", trial, s->id);
-      atomic_fetch_sub(&readers_in, 1);
+      atomic_fetch_sub_explicit(&readers_in, 1, OCC_ORDER);
       vp_add(c_rd, 1);
       FB_BLOCKING(s, "C07 fiber_rwlock_rdunlock", fiber_rwlock_rdunlock(&rw));
     }
@@ -70,13 +78,13 @@ static void* rw_hammer_reader(void* a) {
   long i;
   for (i = 0; i < (long)iters * 150; ++i) {
     FB_BLOCKING(s, "C07 fiber_rwlock_rdlock", fiber_rwlock_rdlock(&rw));
-    const int r = atomic_fetch_add(&readers_in, 1) + 1;
+    const int r = atomic_fetch_add_explicit(&readers_in, 1, OCC_ORDER) + 1;
     vp_max(c_maxreaders, r);
-    const int w = atomic_load(&writers_in);
+    const int w = atomic_load_explicit(&writers_in, OCC_ORDER);
     if (w != 0) vp_violation("C07", "rwlock:reader-with-writer", "trial %d (hammer): reader fiber %d holds the lock while %d writer(s) are inside", trial, s->id, w);
-    const long seen = plain_shared;
-    if (plain_shared != seen) vp_violation("C07", "rwlock:write-during-read", "trial %d (hammer): shared data changed while reader fiber %d holds the lock", trial, s->id);
-    atomic_fetch_sub(&readers_in, 1);
+    const long seen = vp_payload_rw_read();
+    if (vp_payload_rw_read() != seen) vp_violation("C07", "rwlock:write-during-read", "trial %d (hammer): shared data changed while reader fiber %d holds the lock", trial, s->id);
+    atomic_fetch_sub_explicit(&readers_in, 1, OCC_ORDER);
     vp_add(c_rd, 1);
     FB_BLOCKING(s, "C07 fiber_rwlock_rdunlock", fiber_rwlock_rdunlock(&rw));
   }
@@ -93,15 +101,15 @@ static void* rw_hammer_writer(void* a) {
       if (!got && (tries & 15) == 0) fiber_yield();
     }
     if (!got) FB_BLOCKING(s, "C07 fiber_rwlock_wrlock", fiber_rwlock_wrlock(&rw));
-    const int w = atomic_fetch_add(&writers_in, 1);
-    const int r = atomic_load(&readers_in);
+    const int w = atomic_fetch_add_explicit(&writers_in, 1, OCC_ORDER);
+    const int r = atomic_load_explicit(&readers_in, OCC_ORDER);
     if (w != 0 || r != 0)
       vp_violation("C07", "rwlock:writer-not-alone", "trial %d (hammer): writer fiber %d holds the lock (%s) together with %d writer(s) and %d reader(s)", trial, s->id,
                    got ? "trywrlock" : "wrlock", w, r);
-    plain_shared++;
-    if (atomic_load(&readers_in) != 0)
-      vp_violation("C07", "rwlock:reader-joined-writer", "trial %d (hammer): %d reader(s) entered while writer fiber %d holds the lock", trial, atomic_load(&readers_in), s->id);
-    atomic_fetch_sub(&writers_in, 1);
+    vp_payload_rw_write();
+    if (atomic_load_explicit(&readers_in, OCC_ORDER) != 0)
+      vp_violation("C07", "rwlock:reader-joined-writer", "trial %d (hammer): %d reader(s) entered while writer fiber %d holds the lock", trial, atomic_load_explicit(&readers_in, OCC_ORDER), s->id);
+    atomic_fetch_sub_explicit(&writers_in, 1, OCC_ORDER);
     vp_add(c_wr, 1);
     FB_BLOCKING(s, "C07 fiber_rwlock_wrunlock", fiber_rwlock_wrunlock(&rw));
     if ((i & 7) == 0) fiber_yield();
